@@ -314,6 +314,11 @@ def printed_ok(written, exact):
     if written == ref2(exact):
         return True
     frac = (exact * 100) % 1
+    # (... unless the exact RATIONAL value is the tie itself - 92px of 640 is 14.375: then px*100/dimension is computed
+    # without any rounding and the written value is the rounding of exactly that number)
+    q = getattr(exact, "q", None)
+    if q is not None and (q * 100) % 1 == Fraction(1, 2) and Fraction(float(q)) == q:
+        return False
     return abs(frac - 0.5) < 1e-6 and written in (ref2(exact - 0.004), ref2(exact + 0.004))
 
 
@@ -325,8 +330,17 @@ def expected_pct(v, unit, W, H, horizontal):
         return None
     px = {UnitEnum.PIXEL: Fraction(v), UnitEnum.EM: Fraction(v) * 16, UnitEnum.PT: Fraction(v) * 4 / 3}.get(unit)
     if unit == UnitEnum.CELL:
-        return float(Fraction(v) * 100 / (32 if horizontal else 15))
-    return float(px * 100 / dim)
+        return _Exact(Fraction(v) * 100 / (32 if horizontal else 15))
+    return _Exact(px * 100 / dim)
+
+
+class _Exact(float):
+    """a float that remembers the exact rational it stands for"""
+
+    def __new__(cls, q):
+        o = float.__new__(cls, float(q))
+        o.q = q
+        return o
 
 
 def bounded_one_dimension(ctx, b):
@@ -381,6 +395,10 @@ def bounded_writers(ctx, b):
              for he in (False, True) for lvl in ("node", "language") for ft in (True, False)]
     fixed += [(UnitEnum.PIXEL, (640, 360), 127.99, 71.99, False, 10, 10, lvl, False) for lvl in ("node", "caption")]
     fixed += [(UnitEnum.PIXEL, (640, 360), 0.01, 0.01, False, 10, 10, "node", False)]
+    # lengths whose percentage is EXACTLY a tie of the second decimal (92px of 640 = 14.375): px*100/dimension is exact
+    # there, and the written value is the rounding of that exact number (the other order of operations is not)
+    fixed += [(UnitEnum.PIXEL, (640, 480), ox_, oy_, False, 10, 10, lvl, False) for ox_, oy_ in ((92, 69), (204, 153), (348, 69)) for lvl in ("caption", "language")]
+    fixed += [(UnitEnum.EM, (640, 480), 5.75, 4.3125, False, 10, 10, "caption", False), (UnitEnum.PT, (640, 480), 69, 51.75, False, 10, 10, "caption", False)]
     # a box at the left / top edge of the video (x = 0, y = 0), without extent and with one that crosses the far edge
     fixed += [(u, (640, 360), 0, 0 if yz else 10, he, {UnitEnum.PERCENT: 95, UnitEnum.PIXEL: 620, UnitEnum.EM: 39, UnitEnum.PT: 460,
                                                         UnitEnum.CELL: 31}[u], 10, lvl, True)
